@@ -436,3 +436,75 @@ def recorded_operands_not_mutated(ctx, rule, qualnames):
                    '(one concentration per solute) are applied to the wrong members when the recipe is baked',
                key=f"parameter changed in place in {q.split('.')[-1]}")
     ctx.count('declaring_methods_params_checked', n)
+
+
+def quantities_parsed_by_unit_only(ctx, rule, qualnames, params=('quantity', 'concentration', 'max_volume', 'total_quantity')):
+    """There is one grammar for quantity and concentration strings: the parsers of class Unit.  A declaring method that
+    looks into the string itself (`quantity.split(..)`, `.isdigit()`, a slice of it) applies a second, narrower or wider
+    grammar: spellings the parser accepts ('5e-1 mL', '+0.5 mL') are refused by that method only."""
+    model = ctx.model
+    n = 0
+    for q in qualnames:
+        fi = model.func(q)
+        mine = [p for p in fi.all_param_names() if p in params]
+        hits = []
+        for x in ast.walk(fi.node):
+            if isinstance(x, ast.Attribute) and isinstance(x.value, ast.Name) and x.value.id in mine and \
+                    isinstance(getattr(x, 'parent', None), ast.Call) and x.parent.func is x:
+                hits.append((x.lineno, f"{x.value.id}.{x.attr}()"))
+            if isinstance(x, ast.Subscript) and isinstance(x.value, ast.Name) and x.value.id in mine:
+                hits.append((x.lineno, f"{x.value.id}[..]"))
+        n += 1
+        ctx.ob(rule, fi, hits[0][0] if hits else fi.node.lineno, f"{q}: quantity strings are left to the parsers of class Unit",
+               not hits, fact=', '.join(sorted({h[1] for h in hits})) or f"parameters {mine} are only type-checked and handed on",
+               why='the method applies its own idea of what a number looks like: a spelling the library accepts everywhere '
+                   'else is refused here', key=f"quantity string inspected in {q.split('.')[-1]}")
+    ctx.count('declaring_methods_quantities', n)
+
+
+def config_file_precedence(ctx, rule):
+    """The configuration is read from the FIRST existing `pyplate.yaml` of the search order (the user's directory before
+    the home directory before the packaged default).  A search that keeps going after a hit, or that takes the last
+    element of the list of hits, always ends at the packaged file: a user's densities and storage units are ignored."""
+    model = ctx.model
+    ci = model.classes.get('Config')
+    init = ci.methods.get('__init__') if ci is not None else None
+    if init is None:
+        from ..model import AnalysisError
+        raise AnalysisError('Config.__init__ not found')
+    verdicts = []
+    for lp in ast.walk(init.node):
+        if isinstance(lp, ast.For) and 'is_file' in ast.unparse(lp):
+            hits = [i for i in ast.walk(lp) if isinstance(i, ast.If) and 'is_file' in ast.unparse(i.test)]
+            for h in hits:
+                positive = not (isinstance(h.test, ast.UnaryOp) and isinstance(h.test.op, ast.Not))
+                branch = h.body if positive else h.orelse
+                stops = any(isinstance(x, (ast.Break, ast.Return)) for b in branch for x in ast.walk(b))
+                if not positive and not h.orelse:
+                    # `if not is_file: continue` followed by the assignment and a break
+                    rest = lp.body[lp.body.index(h) + 1:] if h in lp.body else []
+                    stops = any(isinstance(x, (ast.Break, ast.Return)) for b in rest for x in ast.walk(b))
+                verdicts.append((lp.lineno, stops, 'the loop over the candidates stops at the first file found' if stops else
+                                 'the loop over the candidates goes on after a file was found: the last one wins'))
+    found_lists = set()
+    for st in ast.walk(init.node):
+        if isinstance(st, ast.Assign) and len(st.targets) == 1 and isinstance(st.targets[0], ast.Name) and \
+                isinstance(st.value, (ast.ListComp, ast.Call)) and 'is_file' in ast.unparse(st.value):
+            found_lists.add(st.targets[0].id)
+    for x in ast.walk(init.node):
+        if isinstance(x, ast.Subscript) and isinstance(x.value, ast.Name) and x.value.id in found_lists:
+            idx = ast.unparse(x.slice)
+            verdicts.append((x.lineno, idx == '0', f"element [{idx}] of the list of files found"))
+        if isinstance(x, ast.Call) and isinstance(x.func, ast.Attribute) and x.func.attr == 'pop' and \
+                isinstance(x.func.value, ast.Name) and x.func.value.id in found_lists:
+            first = bool(x.args) and ast.unparse(x.args[0]) == '0'
+            verdicts.append((x.lineno, first, f"{ast.unparse(x)} takes the {'first' if first else 'last'} of the files found"))
+        if isinstance(x, ast.Call) and isinstance(x.func, ast.Name) and x.func.id == 'next' and 'is_file' in ast.unparse(x):
+            verdicts.append((x.lineno, True, 'next() over the candidates: the first file found'))
+    if not verdicts:
+        from ..model import AnalysisError
+        raise AnalysisError('Config.__init__: the search for pyplate.yaml was not understood')
+    for line, ok, fact in verdicts:
+        ctx.ob(rule, init, line, 'the first existing pyplate.yaml of the search order is the one that is read', ok, fact=fact,
+               why='the packaged default is last in the search order: taking the last hit ignores the user\'s configuration '
+                   '(densities, storage units, precisions)', key='configuration file precedence')
